@@ -32,7 +32,7 @@ var c13Decls = []c13Decl{
 	{"table-member", "", "t = {k = 1}", "k", "print(t.k)", false, []string{"k", "1"}, false},
 }
 
-var c13Placements = []string{"none", "trailing", "above-1", "above-2", "above-triple-dash", "above-separated-by-blank", "trailing-multi-name"}
+var c13Placements = []string{"none", "trailing", "above-1", "above-2", "above-triple-dash", "above-separated-by-blank", "trailing-multi-name", "above-1-directly-below-a-trailing-comment"}
 
 var c13Alpha = []string{"a", " ", "é", "я", "中", "😀", "-", "*"}
 
@@ -49,6 +49,7 @@ type c13Case struct {
 	d        c13Decl
 	place    string
 	T        string
+	prevLine int // >0: line of "local first = 0 -- trail of first" whose hover must show exactly that comment
 }
 
 func c13Build(d c13Decl, place string, T string) (c13Case, bool) {
@@ -79,6 +80,13 @@ func c13Build(d c13Decl, place string, T string) (c13Case, bool) {
 	case "above-separated-by-blank":
 		lines = append(lines, "-- "+T, "")
 		c.want = nil
+	case "above-1-directly-below-a-trailing-comment":
+		// the previous declaration carries its own trailing comment on the line directly above the block
+		lines[len(lines)-2] = "local first = 0 -- trail of first"
+		lines = lines[:len(lines)-1]
+		lines = append(lines, "-- "+T)
+		c.want = []string{c13Trim(T)}
+		c.prevLine = len(lines) - 2
 	case "trailing-multi-name":
 		if !d.multi {
 			return c, false
@@ -249,6 +257,41 @@ func c13Space(L int) *core.Space {
 					kind = "non-ascii-documentation-altered"
 				}
 				fail(kind+":"+c.place, map[string]interface{}{"expected_documentation": c.want, "shown_documentation": doc})
+			}
+			if c.prevLine > 0 {
+				h, err := s.Hover("m.lua", c.prevLine, 6)
+				r.Transitions++
+				r.States++
+				if err == nil {
+					_, doc := c13Parse(h)
+					if strings.Join(doc, "\n") != "trail of first" {
+						sig := "neighbour-declaration-shows-foreign-comment:" + c.place
+						coreS := fmt.Sprintf("%s | %s | comment %q", sig, c.d.name, c.T)
+						r.Outcome(sig)
+						r.Fail(name, i, sig, coreS, map[string]interface{}{"failure_core": coreS, "m.lua": c.text, "hover_of_first": h, "expected_documentation": []string{"trail of first"}})
+					}
+				}
+			}
+			// the same after an unsaved edit that inserts a line at the top and rewords the comment
+			if c.judgeDoc && len(c.want) > 0 && c.T != "" && i%3 == 0 {
+				old := c.text
+				reworded := strings.Replace(old, c.T, "old wording", 1)
+				if reworded != old && strings.Count(old, c.T) == 1 {
+					s.ChangeFull("m.lua", reworded)
+					s.ChangeFull("m.lua", "-- inserted\n"+old)
+					h, err := s.Hover("m.lua", c.declLine+1, c.declCol)
+					r.Transitions += 3
+					r.States++
+					if err == nil {
+						_, doc := c13Parse(h)
+						if strings.Join(doc, "\n") != strings.Join(c.want, "\n") {
+							sig := "documentation-stale-after-unsaved-edit:" + c.place
+							coreS := fmt.Sprintf("%s | %s | comment %q", sig, c.d.name, c.T)
+							r.Outcome(sig)
+							r.Fail(name, i, sig, coreS, map[string]interface{}{"failure_core": coreS, "buffer": "-- inserted\n" + old, "hover": h, "expected_documentation": c.want})
+						}
+					}
+				}
 			}
 		},
 	}
